@@ -1,6 +1,7 @@
 package smt
 
 import (
+	"os"
 	"bufio"
 	"fmt"
 	"io"
@@ -35,6 +36,8 @@ type Solver struct {
 	Queries int
 	Time    time.Duration
 	Log     io.Writer // optional transcript
+	// Preamble is sent after the default options on every (re)start, e.g. per-check z3 options.
+	Preamble string
 	kind    string
 	Errors  int
 }
@@ -74,12 +77,28 @@ func (s *Solver) start() error {
 	s.out = bufio.NewReaderSize(out, 1<<16)
 	s.emitted = map[int]bool{}
 	s.ufs = 0
+	if p := os.Getenv("SYMGO_SMTLOG"); p != "" && s.Log == nil { // debugging aid: transcript of everything sent
+		if f, err := os.CreateTemp("", p+"-*.smt2"); err == nil {
+			s.Log = f
+		}
+	}
 	if s.kind == "z3" {
 		s.send("(set-option :global-declarations true)\n(set-option :model.completion true)\n")
 	} else {
 		s.send("(set-option :global-declarations true)\n(set-logic ALL)\n")
 	}
+	if s.Preamble != "" {
+		s.send(s.Preamble)
+	}
 	return nil
+}
+
+// SetPreamble installs extra solver options (must be called before the first query).
+func (s *Solver) SetPreamble(p string) {
+	s.Preamble = p
+	if p != "" {
+		s.send(p)
+	}
 }
 
 func (s *Solver) Close() {
